@@ -13,7 +13,7 @@ TRUSTED_BASE = [
     "correspondence check: Rust harness (harness/) linked against /repo working tree + OCaml driver of the extracted model + bin/check comparison",
     "Coq extraction to OCaml with ExtrOcamlBasic only (bool, option, unit, list, prod, sumbool, sumor; andb/orb inlined); OCaml 4.13.1 compiler; ocaml/driver.ml parsing/printing",
     "sw-composite 0.7.16, euclid 0.22.14, lyon_geom 1.0.x: dependencies outside /repo, modelled (pixel arithmetic, matrices) or used as oracles (flattening, arcs), validated by correspondence",
-    "IEEE-754 binary32 arithmetic of the executable model: Flocq 4 (no theorem depends on it)",
+    "IEEE-754 binary32 arithmetic of the executable model: Flocq 4; theorems whose statement mentions an f32-carrying type inherit the 4 standard-library axioms Flocq depends on (listed per theorem under coverage.theorems), all other theorems are closed under the global context",
     "rustc/cargo, the case generators and shrinker in lib/rqcheck",
 ]
 
